@@ -1,5 +1,6 @@
 import Slock.Proofs.TextChunk
 import Slock.Proofs.TextNorm
+import Slock.Proofs.TextConv
 /-!
 # C14 (text part) — the RESP request parser, BuildRequest, key/id normalisation, text LOCK/UNLOCK, result rendering
 
@@ -139,5 +140,95 @@ example : docRule (fun _ => List.replicate 16 7)
     [48, 49, 48, 50, 65, 98, 99, 68, 48, 48, 48, 48, 48, 48, 48, 48, 48, 48, 48, 48, 48, 48, 48, 48, 48, 48, 48, 48, 102, 102, 70, 70] =
     [1, 2, 171, 205, 0, 0, 0, 0, 0, 0, 0, 0, 0, 0, 255, 255] := by decide
 example : docRule (fun _ => List.replicate 16 7) (List.replicate 17 48) = List.replicate 16 7 := by decide
+
+/-! ## (d) a text LOCK / UNLOCK carries exactly the binary command's field values -/
+
+/-- `LOCK|UNLOCK <key> (KEYWORD value)*` with keywords LOCK_ID / FLAG / TIMEOUT / EXPRIED / COUNT / RCOUNT in ANY order and
+multiplicity, values in range for the binary fields: the converted command has command type 1 / 2, the protocol's db,
+the normalised key, defaults TIMEOUT 15 / EXPRIED 120, and exactly the given field values — COUNT and RCOUNT stored
+−1 (`KV.apply`); without LOCK_ID the lock id is the request id (LOCK) resp. the connection's last lock id (UNLOCK). -/
+theorem text_eq_binary (ctx : Ctx) (hmd5 : ∀ x, (ctx.md5 x).length = 16) (isUnlock : Bool) (key : Bytes) (kvs : List KV)
+    (hwf : ∀ kv ∈ kvs, kv.wf) :
+    convertLock ctx ((if isUnlock then kUNLOCK else kLOCK) :: key :: renderAll kvs) =
+      .ok { hdr := finishId (if isUnlock then kUNLOCK else kLOCK) (kvs.any KV.isId)
+              (kvs.foldl (KV.apply ctx.md5)
+                { commandType := if isUnlock then 2 else 1, dbId := ctx.dbId, lockKey := docRule ctx.md5 key,
+                  timeout := 15, expried := 120 }) } := by
+  unfold convertLock
+  have hlen : ((if isUnlock then kUNLOCK else kLOCK) :: key :: renderAll kvs).length = 2 * kvs.length + 2 := by
+    simp [renderAll_length]
+  rw [hlen, lockConv]
+  have hbad : ¬ (2 * kvs.length + 2 < 2 ∨ (2 * kvs.length + 2) % 2 ≠ 0) := by omega
+  rw [hlen, if_neg hbad]
+  have hu : upper (if isUnlock then kUNLOCK else kLOCK) = (if isUnlock then kUNLOCK else kLOCK) := by
+    cases isUnlock <;> decide
+  simp only [idx, List.getElem?_cons_zero, List.getElem?_cons_succ, List.drop_succ_cons, List.drop_zero, hu]
+  rw [lockLoop_kvs ctx hmd5 _ kvs hwf _ (by omega)]
+  cases isUnlock
+  · have : (kLOCK = kUNLOCK) = False := by decide
+    simp [initHdr, argId_eq_doc _ hmd5, this, Slock.Gen.C.COMMAND_LOCK]
+  · simp [initHdr, argId_eq_doc _ hmd5, Slock.Gen.C.COMMAND_UNLOCK]
+
+example : ∀ kv ∈ [KV.timeout 5, KV.count 2, KV.lockId [1, 2, 3], KV.rcount 256, KV.expried 4294967295], kv.wf := by
+  intro kv h
+  simp at h
+  rcases h with rfl | rfl | rfl | rfl | rfl <;> simp [KV.wf]
+
+/-- The renderer puts the +1 back and its output is a well-formed RESP array of the 12 result fields: for every result
+code below 12 and a reply without data, `WriteTextLockAndUnLockCommandResult` writes exactly
+`BuildRequest [result, ERROR_MSG[result], "LOCK_ID", hex id, "LCOUNT", n, "COUNT", count+1, "LRCOUNT", n, "RCOUNT", rcount+1]`. -/
+theorem render_plus_one (r : ResultCmd) (msg : String) (hm : errorMsg r.result = some msg)
+    (hf : r.flag &&& Slock.Gen.C.UNLOCK_FLAG_CONTAINS_DATA = 0) (hc : r.count < 65535) (hrc : r.rcount < 255) :
+    renderLockResult r = .ok (buildRequest [natToDec r.result, strBytes msg, kLOCK_ID, hexLower r.lockId, kLCOUNT,
+      natToDec r.lcount, kCOUNT, natToDec (r.count + 1), kLRCOUNT, natToDec r.lrcount, kRCOUNT, natToDec (r.rcount + 1)]) := by
+  unfold renderLockResult
+  simp only [hm, hf]
+  have e1 : (r.count + 1) % 65536 = r.count + 1 := Nat.mod_eq_of_lt (by omega)
+  have e2 : (r.rcount + 1) % 256 = r.rcount + 1 := Nat.mod_eq_of_lt (by omega)
+  simp [buildRequest, e1, e2]
+
+/-- … hence (by `parse_build`) a client parsing the reply with the same RESP automaton reads those 12 fields back. -/
+theorem render_parses_back (r : ResultCmd) (msg : String) (hm : errorMsg r.result = some msg)
+    (hf : r.flag &&& Slock.Gen.C.UNLOCK_FLAG_CONTAINS_DATA = 0) (hc : r.count < 65535) (hrc : r.rcount < 255)
+    (hsz : sizeOK [natToDec r.result, strBytes msg, kLOCK_ID, hexLower r.lockId, kLCOUNT,
+      natToDec r.lcount, kCOUNT, natToDec (r.count + 1), kLRCOUNT, natToDec r.lrcount, kRCOUNT, natToDec (r.rcount + 1)])
+    (b : Bytes) (hb : renderLockResult r = .ok b) :
+    (parseAll [b]).outcome = ([[natToDec r.result, strBytes msg, kLOCK_ID, hexLower r.lockId, kLCOUNT,
+      natToDec r.lcount, kCOUNT, natToDec (r.count + 1), kLRCOUNT, natToDec r.lrcount, kRCOUNT, natToDec (r.rcount + 1)]], .done) := by
+  rw [render_plus_one r msg hm hf hc hrc] at hb
+  injection hb with hb
+  rw [← hb]
+  exact parse_build _ hsz
+
+/-! ## (e) every result code has a text rendering -/
+
+/-- `ERROR_MSG` has 12 entries for the 13 result codes 0..12: RESULT_LOCK_ACK_WAITING (12) has no rendering — the
+renderer indexes out of range, whatever the other fields are. -/
+theorem result_12_panics (r : ResultCmd) (h : r.result = Slock.Gen.C.RESULT_LOCK_ACK_WAITING) :
+    renderLockResult r = .panic ∧ renderServerResult r = .panic := by
+  have : errorMsg r.result = none := by rw [h]; decide
+  simp [renderLockResult, renderServerResult, this]
+
+theorem every_result_code_has_rendering_fails :
+    ¬ ∀ code, code ≤ 12 → (renderLockResult { result := code }).isPanic = false := by
+  intro h
+  have := h 12 (by omega)
+  revert this
+  decide
+
+/-- … and every code 0..11 does, for all values of the other fields (a reply flagged as carrying data must carry it). -/
+theorem every_result_code_has_rendering_partial (r : ResultCmd) (h : r.result < 12)
+    (hd : r.flag &&& Slock.Gen.C.UNLOCK_FLAG_CONTAINS_DATA ≠ 0 → r.data ≠ none) :
+    (renderLockResult r).isPanic = false ∧ (renderServerResult r).isPanic = false := by
+  have hm : ∀ n, n < 12 → (errorMsg n).isSome = true := by decide
+  obtain ⟨m, hm⟩ := Option.isSome_iff_exists.mp (hm r.result h)
+  have e : Slock.Gen.C.LOCK_FLAG_CONTAINS_DATA = Slock.Gen.C.UNLOCK_FLAG_CONTAINS_DATA := by decide
+  unfold renderLockResult renderServerResult
+  simp only [hm, e]
+  by_cases hf : r.flag &&& Slock.Gen.C.UNLOCK_FLAG_CONTAINS_DATA ≠ 0
+  · cases hdat : r.data with
+    | none => exact absurd hdat (hd hf)
+    | some d => simp [hf, Render.isPanic]
+  · simp [hf, Render.isPanic]
 
 end Slock.C14T
